@@ -186,12 +186,9 @@ func tagScan(c *core.Ctx, fn *core.Fn, name string, crcFn *types.Func) {
 	key := types.Object(sig.Params().At(0))
 	// the scan may live in a same-package helper h(key) whose result is what gets hashed
 	scanFn, scanKey := fn, key
-	for _, call := range core.Calls(fn.Decl.Body, info, func(_ *ast.CallExpr, o types.Object) bool { return o == types.Object(crcFn) }) {
-		if len(call.Args) != 1 {
-			continue
-		}
-		o := objOf(info, strip(info, call.Args[0]))
-		if o == nil || o == key {
+	for _, hv := range hashedVals(info, fn, crcFn, key) {
+		o := objOf(info, hv.expr)
+		if hv.whole || o == nil {
 			continue
 		}
 		if rhs, other := defsOf(info, fn.Decl.Body, o); len(rhs) == 1 && other == 0 && rhs[0] != nil {
@@ -322,48 +319,109 @@ func scanLoops(c *core.Ctx, fn *core.Fn, name string, keyObj types.Object) bool 
 }
 
 // hashPart: (C) the tag is hashed only when non-empty, otherwise the whole key.
-func hashPart(c *core.Ctx, fn *core.Fn, name string, crcFn *types.Func, keyObj types.Object) {
-	info := fn.Pkg.TypesInfo
-	s := &scan{c: c, fn: fn, info: info, g: cfgq.Of(c.Program, fn), key: keyObj, name: name}
-	whole, tagged := 0, 0
-	for _, p := range s.g.Points(s.g.HasCall(func(call *ast.CallExpr, callee types.Object) bool { return callee == crcFn })) {
-		for _, call := range cfgq.ExecCalls(p.Node()) {
-			if core.CalleeFunc(info, call) != crcFn || len(call.Args) != 1 {
-				continue
-			}
-			arg := strip(info, call.Args[0])
-			if objOf(info, arg) == s.key {
-				whole++
-				continue
-			}
-			tagged++
-			ok, w := onlyVia(s.g, p, nonEmpty(info, arg))
-			key := name + "/nonempty"
-			if ok {
-				c.Okf("R3.tag", key, call.Pos(), "%s is hashed only when it is known to be non-empty", c.Src(arg))
-				continue
-			}
-			// positive evidence only: nothing in the function relates the tag's two ends / its length
-			definite := emptinessTests(info, fn.Decl.Body, arg, crcFn) == 0
-			if o := objOf(info, arg); definite && o != nil {
-				rhs, other := defsOf(info, fn.Decl.Body, o)
-				definite = other == 0
-				for _, r := range rhs {
-					if r == nil {
-						continue
-					}
-					sv, isStr := core.StringConst(info, r)
-					_, isSl := strip(info, r).(*ast.SliceExpr)
-					if !(isStr && sv == "") && !isSl {
-						definite = false
+// hashedVal is one value that reaches the CRC: the whole key or a candidate tag,
+// together with the program point where it is committed (the call itself, or
+// the assignment to a local that carries the value to the call).
+type hashedVal struct {
+	expr  ast.Expr
+	at    ast.Node
+	whole bool
+}
+
+// hashedVals lists what is handed to crcFn in fn. A local one of whose
+// definitions is the key itself is a carrier (`hashed := key; if ... { hashed = tag }`):
+// each of its definitions is a value of its own.
+func hashedVals(info *types.Info, fn *core.Fn, crcFn *types.Func, keyObj types.Object) []hashedVal {
+	var out []hashedVal
+	for _, call := range core.Calls(fn.Decl.Body, info, func(_ *ast.CallExpr, o types.Object) bool { return o == types.Object(crcFn) }) {
+		if len(call.Args) != 1 {
+			continue
+		}
+		arg := strip(info, call.Args[0])
+		o := objOf(info, arg)
+		if o == keyObj && o != nil {
+			out = append(out, hashedVal{expr: arg, at: call, whole: true})
+			continue
+		}
+		carrier := false
+		type def struct {
+			rhs ast.Expr
+			at  ast.Node
+		}
+		var defs []def
+		if o != nil {
+			ast.Inspect(fn.Decl.Body, func(n ast.Node) bool {
+				if as, ok := n.(*ast.AssignStmt); ok && len(as.Lhs) == len(as.Rhs) && (as.Tok == token.ASSIGN || as.Tok == token.DEFINE) {
+					for i, l := range as.Lhs {
+						if objOf(info, l) == o {
+							defs = append(defs, def{as.Rhs[i], as})
+							if objOf(info, strip(info, as.Rhs[i])) == keyObj {
+								carrier = true
+							}
+						}
 					}
 				}
+				return true
+			})
+			if _, other := defsOf(info, fn.Decl.Body, o); other != 0 {
+				carrier = false
 			}
-			if definite {
-				c.Check("R3.tag", key, call.Pos(), false, "an empty hash tag is hashed instead of falling back to the whole key (key \"{}x\" must hash \"{}x\", not \"\")", w...)
-			} else {
-				c.Undecidedf("R3.tag", key, call.Pos(), "cannot tell whether %s may be empty when hashed", c.Src(arg))
+		}
+		if !carrier {
+			out = append(out, hashedVal{expr: arg, at: call})
+			continue
+		}
+		for _, d := range defs {
+			r := strip(info, d.rhs)
+			out = append(out, hashedVal{expr: r, at: d.at, whole: objOf(info, r) == keyObj})
+		}
+	}
+	return out
+}
+
+// hashPart: (C) the tag is hashed only when non-empty, otherwise the whole key.
+func hashPart(c *core.Ctx, fn *core.Fn, name string, crcFn *types.Func, keyObj types.Object) {
+	info := fn.Pkg.TypesInfo
+	g := cfgq.Of(c.Program, fn)
+	whole, tagged := 0, 0
+	for _, hv := range hashedVals(info, fn, crcFn, keyObj) {
+		if hv.whole {
+			whole++
+			continue
+		}
+		tagged++
+		arg := hv.expr
+		key := name + "/nonempty"
+		p, found := g.Find(hv.at)
+		if !found {
+			c.Undecidedf("R3.tag", key, hv.at.Pos(), "the place where %s is chosen for hashing is not in the control-flow graph", c.Src(arg))
+			continue
+		}
+		ok, w := onlyVia(g, p, nonEmpty(info, arg))
+		if ok {
+			c.Okf("R3.tag", key, hv.at.Pos(), "%s is hashed only when it is known to be non-empty", c.Src(arg))
+			continue
+		}
+		// positive evidence only: nothing in the function relates the tag's two ends / its length
+		definite := emptinessTests(info, fn.Decl.Body, arg, crcFn) == 0
+		if o := objOf(info, arg); definite && o != nil {
+			rhs, other := defsOf(info, fn.Decl.Body, o)
+			definite = other == 0
+			for _, r := range rhs {
+				if r == nil {
+					continue
+				}
+				sv, isStr := core.StringConst(info, r)
+				_, isSl := strip(info, r).(*ast.SliceExpr)
+				if !(isStr && sv == "") && !isSl {
+					definite = false
+				}
 			}
+		}
+		if definite {
+			c.Check("R3.tag", key, hv.at.Pos(), false, "an empty hash tag is hashed instead of falling back to the whole key (key \"{}x\" must hash \"{}x\", not \"\")", w...)
+		} else {
+			c.Undecidedf("R3.tag", key, hv.at.Pos(), "cannot tell whether %s may be empty when hashed", c.Src(arg))
 		}
 	}
 	if tagged == 0 {
